@@ -444,7 +444,8 @@ def _round(eb):
             return NotImplemented
         m = imm[2]
         if m >> 4:
-            return NotImplemented        # rndscale with a scale: not a plain rounding
+            # rndscale with a scale M: 2^-M * round(2^M * x)
+            return T.concat([T.op("x86.rndscale", eb, T.slice_(x, i * eb, eb), m & 0xFF) for i in range(x[1] // eb)])
         name = "call:llvm.rint" if m & 4 else _RND[m & 3]
         n = x[1] // eb
         return T.concat([T.op(name, eb, T.slice_(x, i * eb, eb)) for i in range(n)])
@@ -471,7 +472,20 @@ def _rndscale(eb):
     return h
 
 
+def _reduce(eb):
+    def h(I, ins, args, cond):
+        # (x, imm, passthru, mask[, sae])
+        x, imm, pt, k = args[0], args[1], args[2], args[3]
+        if imm[0] != "const" or not _sae_ok(args, 4):
+            return NotImplemented
+        return _masked_lanes([T.op("x86.reduce", eb, T.slice_(x, i * eb, eb), imm[2] & 0xFF)
+                              for i in range(x[1] // eb)], pt, k, eb)
+    return h
+
+
 for _w in ("128", "256", "512"):
+    TABLE["llvm.x86.avx512.mask.reduce.ps." + _w] = _reduce(32)
+    TABLE["llvm.x86.avx512.mask.reduce.pd." + _w] = _reduce(64)
     TABLE["llvm.x86.avx512.mask.rndscale.ps." + _w] = _rndscale(32)
     TABLE["llvm.x86.avx512.mask.rndscale.pd." + _w] = _rndscale(64)
 
